@@ -147,7 +147,7 @@ def run_cell(args):
         names = [n for n in os.listdir(folder) if n.endswith(".mhl")] if os.path.isdir(folder) else []
         line = {"tid": "time-%d" % k, "i": 0, "zone": zone, "t": t_file, "now": t_now, "size": size, "exit": res.exit_code, "op": {"op": "create"},
                 "exc": "" if res.exception is None or isinstance(res.exception, SystemExit) else "%s: %s" % (type(res.exception).__name__, res.exception),
-                "off_t": true_offset(zone, t_file), "off_now": true_offset(zone, t_now), "dates": [], "flat": [], "flat_exit": -1, "flat_size": -2, "size_written": -1, "fname_ok": False}
+                "off_t": true_offset(zone, t_file), "off_now": true_offset(zone, t_now), "dates": [], "flat": [], "flat_exit": -1, "flat_size": -2, "flat_fname_ok": False, "size_written": -1, "fname_ok": False}
         if names:
             with open(os.path.join(folder, names[0]), "rb") as fh:
                 m = PJ.parse_manifest(fh.read())
@@ -178,6 +178,9 @@ def run_cell(args):
             for dp, dn, fs in os.walk(w.flat_dest):
                 for fn in fs:
                     if fn.endswith(".mhl"):
+                        # the packing list's own file name carries the UTC time of the flatten run
+                        mt_ = re.search(r"_(\d{4}-\d{2}-\d{2}_\d{6}Z)\.mhl$", fn)
+                        line["flat_fname_ok"] = bool(mt_) and mt_.group(1) == datetime.datetime.fromtimestamp(t_now + 3600, datetime.timezone.utc).strftime("%Y-%m-%d_%H%M%SZ")
                         with open(os.path.join(dp, fn), "rb") as fh:
                             fm = PJ.parse_manifest(fh.read())
                         for r in fm.get("files", []):
